@@ -506,6 +506,12 @@ func evalRejects(r *core.Result, prog *core.Program, prop string, rows []rejectR
 	for _, rr := range rows {
 		consts = append(consts, predConstants(rr.pk, rr.preds)...)
 	}
+	// fixed breakpoints of the key domain (field number 0, 1, 2^29-1, 2^29 with every wire type) so that the exactness
+	// clause below does not depend on which constants the code under analysis happens to mention
+	for _, k := range []string{"0", "7", "8", "4294967288", "4294967295", "4294967296", "4294967303", "34359738368", "9223372036854775808", "18446744073709551615"} {
+		b, _ := new(big.Int).SetString(k, 10)
+		consts = append(consts, b)
+	}
 	probes := probesFor(consts)
 	sets := map[string]map[string]bool{}
 	n := 0
@@ -533,6 +539,23 @@ func evalRejects(r *core.Result, prog *core.Program, prop string, rows []rejectR
 			detail = fmt.Sprintf("varint value %s (0x%x) is emitted by a conforming writer for kind %s but the reader returns an overflow/invalid-tag error for it (conditions: %s)", bad, b, rr.row.kind, condText(prog, rr.preds))
 		}
 		r.Ob("P-valid", rr.row.fn+" ("+rr.row.kind+")", pos, bad == "", detail)
+		if rr.row.kind == "key" {
+			// exactness: a key whose field number is 0 or above 2^29-1 is not a key of any message; a reader that
+			// accepts it hands the caller a field the reference parsers reject (and lets Skip run on garbage)
+			miss := ""
+			for _, p := range probes {
+				if !valid(p) && !set[p.String()] {
+					miss = p.String()
+					break
+				}
+			}
+			d2 := ""
+			if miss != "" {
+				b, _ := new(big.Int).SetString(miss, 10)
+				d2 = fmt.Sprintf("varint value %s (0x%x) is not a valid field key (field number 0 or above 2^29-1) but the reader accepts it (conditions: %s)", miss, b, condText(prog, rr.preds))
+			}
+			r.Ob("P-exact", rr.row.fn+" rejects every invalid key", pos, miss == "", d2)
+		}
 		r.Sample(map[string]interface{}{"reader": rr.row.fn, "kind": rr.row.kind, "reject_conditions": condText(prog, rr.preds), "probes": len(probes)})
 	}
 	// sibling agreement
